@@ -70,6 +70,9 @@ func targets(root *yjson.Object) []target {
 		case *yjson.Object:
 			keys := make([]string, 0)
 			for k := range t.Object.Members() {
+				if depth == 0 && isConservationKey(k) {
+					continue // owned by the conservation workload
+				}
 				keys = append(keys, k)
 			}
 			sort.Strings(keys)
@@ -440,4 +443,24 @@ func (g *Gen) GenEditNoTombstones(c int, root *yjson.Object) *Edit {
 	}
 	v := keyVocab["prim"]
 	return &Edit{K: "o.set", Key: v[g.R.IntN(len(v))], V: g.primVal(c)}
+}
+
+// isConservationKey reports whether a root key belongs to the conservation
+// workload (k<c>, tk<c>, tx<c>), which ordinary edits must leave alone.
+func isConservationKey(k string) bool {
+	i := 0
+	switch {
+	case len(k) > 2 && (k[:2] == "tk" || k[:2] == "tx"):
+		i = 2
+	case len(k) > 1 && k[0] == 'k':
+		i = 1
+	default:
+		return false
+	}
+	for ; i < len(k); i++ {
+		if k[i] < '0' || k[i] > '9' {
+			return false
+		}
+	}
+	return true
 }
